@@ -214,8 +214,9 @@ class Mix(Scenario):
     def _publisher(self, w, it, side, role, count, ending):
         """Publisher producing `count` elements it.pay(role, i)."""
         st = w.objs['st'][it.tag]
-        if it.pub == 'manual':
-            pub = RecPublisher(w, side, 'pub' + it.tag + role)
+        if it.pub in ('manual', 'manual-craise'):
+            # 'manual-craise': the application's publisher raises from cancel() (a cleanup step that fails)
+            pub = RecPublisher(w, side, 'pub' + it.tag + role, raise_in=('cancel',) if it.pub == 'manual-craise' else None)
             st['pub' + role] = pub
             steps = []
             for i in range(count):
@@ -321,6 +322,18 @@ class Mix(Scenario):
             steps.append(Step('request', lambda w: st.__setitem__('fut', watch_future(w, side, 'fnf' + it.tag, sock.fire_and_forget(it.pay('q', 0))))))
         elif it.kind == 'push':
             steps.append(Step('request', lambda w: st.__setitem__('fut', watch_future(w, side, 'push' + it.tag, sock.metadata_push(b(it.pay('q', 1).metadata))))))
+        elif it.kind in ('stream-unsub', 'rx-stream-unsub', 'channel-unsub'):
+            # the application obtained the publisher / observable but has not subscribed to it (yet)
+            def go_unsub(w):
+                if it.kind == 'stream-unsub':
+                    st['unsub'] = sock.request_stream(it.pay('q', 0))
+                elif it.kind == 'channel-unsub':
+                    st['unsub'] = sock.request_channel(it.pay('q', 0))
+                else:
+                    from rsocket.reactivex.reactivex_client import ReactiveXClient
+                    st['unsub'] = ReactiveXClient(sock).request_stream(it.pay('q', 0))
+
+            steps.append(Step('request', go_unsub))
         else:
             sub = RecSubscriber(w, side, 'sub' + it.tag, cancel_on_subscribe=(it.cancel_after == -1))
             st['sub'] = sub
